@@ -1,0 +1,316 @@
+// This Source Code Form is subject to the terms of the Mozilla Public
+// License, v. 2.0. If a copy of the MPL was not distributed with this
+// file, You can obtain one at http://mozilla.org/MPL/2.0/.
+//
+// Copyright (c) DUSK NETWORK. All rights reserved.
+
+//! Verification hooks (feature `verif` only): thin public wrappers over the
+//! crate-private numeric kernels, so that an external harness can run them
+//! on chosen inputs. Nothing here changes behaviour; none of it is compiled
+//! without the `verif` feature.
+
+#![allow(missing_docs)]
+
+use alloc::vec::Vec;
+use core::cell::Cell;
+
+use dusk_bls12_381::{BlsScalar, G1Affine};
+use merlin::Transcript;
+
+use crate::commitment_scheme::{
+    AggregateProof, CommitKey, Commitment, OpeningKey, PublicParameters,
+    VerifKzgProof as KzgProof,
+};
+use crate::error::Error;
+use crate::fft::{EvaluationDomain, Polynomial};
+
+pub use crate::composer::verif_hooks::VerifSnapshot;
+
+std::thread_local! {
+    static FORCE_PROVE: Cell<bool> = const { Cell::new(false) };
+}
+
+/// When set on the calling thread, the quotient computation skips its
+/// unsatisfied-circuit check and keeps only the low `4n + 7` coefficients.
+pub fn set_force_prove(on: bool) {
+    FORCE_PROVE.with(|f| f.set(on));
+}
+
+pub fn force_prove() -> bool {
+    FORCE_PROVE.with(|f| f.get())
+}
+
+fn domain(size: usize) -> Result<EvaluationDomain, Error> {
+    EvaluationDomain::new(size)
+}
+
+/// `(size, log_size, size_inv, group_gen, group_gen_inv, generator_inv)`
+pub fn domain_params(
+    num_coeffs: usize,
+) -> Result<(u64, u32, BlsScalar, BlsScalar, BlsScalar, BlsScalar), Error> {
+    let d = domain(num_coeffs)?;
+    Ok((
+        d.size,
+        d.log_size_of_group,
+        d.size_inv,
+        d.group_gen,
+        d.group_gen_inv,
+        d.generator_inv,
+    ))
+}
+
+pub fn fft(num_coeffs: usize, v: &[BlsScalar]) -> Result<Vec<BlsScalar>, Error> {
+    Ok(domain(num_coeffs)?.fft(v))
+}
+
+pub fn ifft(
+    num_coeffs: usize,
+    v: &[BlsScalar],
+) -> Result<Vec<BlsScalar>, Error> {
+    Ok(domain(num_coeffs)?.ifft(v))
+}
+
+pub fn coset_fft(
+    num_coeffs: usize,
+    v: &[BlsScalar],
+) -> Result<Vec<BlsScalar>, Error> {
+    Ok(domain(num_coeffs)?.coset_fft(v))
+}
+
+pub fn coset_ifft(
+    num_coeffs: usize,
+    v: &[BlsScalar],
+) -> Result<Vec<BlsScalar>, Error> {
+    Ok(domain(num_coeffs)?.coset_ifft(v))
+}
+
+pub fn serial_fft(v: &mut [BlsScalar], omega: BlsScalar, log_n: u32) {
+    crate::fft::domain::alloc::serial_fft(v, omega, log_n)
+}
+
+pub fn lagrange_coeffs(
+    num_coeffs: usize,
+    tau: BlsScalar,
+) -> Result<Vec<BlsScalar>, Error> {
+    Ok(domain(num_coeffs)?.evaluate_all_lagrange_coefficients(tau))
+}
+
+pub fn vanishing_eval(
+    num_coeffs: usize,
+    tau: &BlsScalar,
+) -> Result<BlsScalar, Error> {
+    Ok(domain(num_coeffs)?.evaluate_vanishing_polynomial(tau))
+}
+
+pub fn vanishing_over_coset(
+    num_coeffs: usize,
+    poly_degree: u64,
+) -> Result<Vec<BlsScalar>, Error> {
+    Ok(domain(num_coeffs)?
+        .compute_vanishing_poly_over_coset(poly_degree)
+        .evals)
+}
+
+pub fn matches_linear_over_coset(
+    num_coeffs: usize,
+    evals: &[BlsScalar],
+) -> Result<bool, Error> {
+    Ok(domain(num_coeffs)?.matches_linear_poly_over_coset(evals))
+}
+
+pub fn matches_vanishing_over_coset(
+    num_coeffs: usize,
+    poly_degree: u64,
+    evals: &[BlsScalar],
+) -> Result<bool, Error> {
+    Ok(domain(num_coeffs)?.matches_vanishing_poly_over_coset(poly_degree, evals))
+}
+
+pub fn domain_elements(num_coeffs: usize) -> Result<Vec<BlsScalar>, Error> {
+    Ok(domain(num_coeffs)?.elements().collect())
+}
+
+fn poly(c: &[BlsScalar]) -> Polynomial {
+    Polynomial::from_coefficients_vec(c.to_vec())
+}
+
+pub fn poly_trim(a: &[BlsScalar]) -> Vec<BlsScalar> {
+    poly(a).to_vec()
+}
+
+pub fn poly_degree(a: &[BlsScalar]) -> usize {
+    poly(a).degree()
+}
+
+pub fn poly_add(a: &[BlsScalar], b: &[BlsScalar]) -> Vec<BlsScalar> {
+    (&poly(a) + &poly(b)).to_vec()
+}
+
+pub fn poly_add_assign(a: &[BlsScalar], b: &[BlsScalar]) -> Vec<BlsScalar> {
+    let mut p = poly(a);
+    p += &poly(b);
+    p.to_vec()
+}
+
+pub fn poly_add_assign_scaled(
+    a: &[BlsScalar],
+    f: BlsScalar,
+    b: &[BlsScalar],
+) -> Vec<BlsScalar> {
+    let mut p = poly(a);
+    p += (f, &poly(b));
+    p.to_vec()
+}
+
+pub fn poly_sub(a: &[BlsScalar], b: &[BlsScalar]) -> Vec<BlsScalar> {
+    (&poly(a) - &poly(b)).to_vec()
+}
+
+pub fn poly_sub_assign(a: &[BlsScalar], b: &[BlsScalar]) -> Vec<BlsScalar> {
+    let mut p = poly(a);
+    p -= &poly(b);
+    p.to_vec()
+}
+
+pub fn poly_mul(a: &[BlsScalar], b: &[BlsScalar]) -> Vec<BlsScalar> {
+    (&poly(a) * &poly(b)).to_vec()
+}
+
+pub fn poly_scale(a: &[BlsScalar], k: &BlsScalar) -> Vec<BlsScalar> {
+    (&poly(a) * k).to_vec()
+}
+
+pub fn poly_add_const(a: &[BlsScalar], k: &BlsScalar) -> Vec<BlsScalar> {
+    (&poly(a) + k).to_vec()
+}
+
+pub fn poly_sub_const(a: &[BlsScalar], k: &BlsScalar) -> Vec<BlsScalar> {
+    (&poly(a) - k).to_vec()
+}
+
+pub fn poly_eval(a: &[BlsScalar], z: &BlsScalar) -> BlsScalar {
+    poly(a).evaluate(z)
+}
+
+pub fn poly_ruffini(a: &[BlsScalar], z: BlsScalar) -> Vec<BlsScalar> {
+    poly(a).ruffini(z).to_vec()
+}
+
+pub fn batch_inversion(v: &mut [BlsScalar]) {
+    crate::util::batch_inversion(v)
+}
+
+pub fn barycentric(
+    num_coeffs: usize,
+    evaluations: &[BlsScalar],
+    point: &BlsScalar,
+) -> Result<BlsScalar, Error> {
+    let d = domain(num_coeffs)?;
+    Ok(crate::proof_system::proof::alloc::compute_barycentric_eval(
+        evaluations,
+        point,
+        &d,
+    ))
+}
+
+pub fn lagrange_and_pi(
+    num_coeffs: usize,
+    public_input_roots: &[BlsScalar],
+    evaluations: &[BlsScalar],
+    point: &BlsScalar,
+) -> Result<(BlsScalar, BlsScalar), Error> {
+    let d = domain(num_coeffs)?;
+    let z_h_eval = d.evaluate_vanishing_polynomial(point);
+    crate::proof_system::proof::alloc::verif_lagrange_and_pi(
+        public_input_roots,
+        evaluations,
+        point,
+        &z_h_eval,
+        &d,
+    )
+}
+
+// ---- KZG10 -----------------------------------------------------------------
+
+/// Commit with the key obtained by `pp.trim(trim)`; returns the compressed
+/// commitment.
+pub fn commit(
+    pp: &PublicParameters,
+    trim: usize,
+    coeffs: &[BlsScalar],
+) -> Result<[u8; 48], Error> {
+    use dusk_bytes::Serializable;
+    let (ck, _) = pp.trim(trim)?;
+    let c = ck.commit(&poly(coeffs))?;
+    Ok(c.0.to_bytes())
+}
+
+/// Length of the commit key obtained by `pp.trim(trim)`.
+pub fn trim_len(pp: &PublicParameters, trim: usize) -> Result<usize, Error> {
+    let (ck, _) = pp.trim(trim)?;
+    Ok(ck.max_degree() + 1)
+}
+
+pub fn max_constraints(pp: &PublicParameters) -> usize {
+    crate::compiler::Compiler::verif_max_constraints(pp)
+}
+
+pub fn aggregate_witness(
+    polys: &[Vec<BlsScalar>],
+    point: &BlsScalar,
+    v: &BlsScalar,
+) -> Vec<BlsScalar> {
+    let ps: Vec<Polynomial> = polys.iter().map(|p| poly(p)).collect();
+    let refs: Vec<&Polynomial> = ps.iter().collect();
+    CommitKey::compute_aggregate_witness(&refs, point, v).to_vec()
+}
+
+fn comm(b: &[u8; 48]) -> Result<Commitment, Error> {
+    use dusk_bytes::Serializable;
+    Ok(Commitment(G1Affine::from_bytes(b)?))
+}
+
+/// `flatten` of an aggregate proof; returns `(witness, evaluation,
+/// polynomial commitment)`.
+pub fn flatten(
+    witness: &[u8; 48],
+    evals: &[BlsScalar],
+    comms: &[[u8; 48]],
+    v: &BlsScalar,
+) -> Result<([u8; 48], BlsScalar, [u8; 48]), Error> {
+    use dusk_bytes::Serializable;
+    let mut agg = AggregateProof::with_witness(comm(witness)?);
+    for (e, c) in evals.iter().zip(comms) {
+        agg.add_part((*e, comm(c)?));
+    }
+    let p = agg.flatten(v);
+    Ok((
+        p.commitment_to_witness.0.to_bytes(),
+        p.evaluated_point,
+        p.commitment_to_polynomial.0.to_bytes(),
+    ))
+}
+
+/// `OpeningKey::batch_check` over `(point, witness, evaluation, commitment)`
+/// tuples with a fresh transcript labelled `label`.
+pub fn batch_check(
+    ok: &OpeningKey,
+    label: &'static [u8],
+    points: &[BlsScalar],
+    proofs: &[([u8; 48], BlsScalar, [u8; 48])],
+) -> Result<(), Error> {
+    let mut ps = Vec::with_capacity(proofs.len());
+    for (w, e, c) in proofs {
+        ps.push(KzgProof {
+            commitment_to_witness: comm(w)?,
+            evaluated_point: *e,
+            commitment_to_polynomial: comm(c)?,
+        });
+    }
+    let mut t = Transcript::new(label);
+    ok.batch_check(points, &ps, &mut t)
+}
+
+pub fn opening_key(pp: &PublicParameters) -> OpeningKey {
+    pp.opening_key.clone()
+}
